@@ -846,10 +846,26 @@ func match(p *Pat, v *Val, e env) tri {
 		e[p.Name] = bexp{v: v}
 		return match(p.Sub[0], v, e)
 	case fOr:
+		pre := map[string]bexp{}
+		for n, b := range e {
+			pre[n] = b
+		}
 		switch match(p.Sub[0], v, e) {
 		case yes:
-			// variables that occur only in the alternative not taken are nil; a variable bound by both keeps its value
-			markAll(p.Sub[1], e, bexp{unset: true}, p.Sub[0])
+			// variables that occur only in the alternative not taken are nil; a variable bound by both keeps its value,
+			// and so does a variable that an earlier part of the pattern has bound (the checker gives it a non-nilable type)
+			for _, n := range p.Sub[1].binders() {
+				if _, bound := pre[n]; bound {
+					continue
+				}
+				keep := false
+				for _, ln := range p.Sub[0].binders() {
+					keep = keep || ln == n
+				}
+				if !keep {
+					e[n] = bexp{unset: true}
+				}
+			}
 			return yes
 		case unspec:
 			return unspec
